@@ -103,6 +103,31 @@ Definition open_uri (nt : bool) (uri : str) : ures str :=
       else RUnm
   end.
 
+(* ------------------------------------------------------------------ sequences of opens *)
+(* ConnectionURIOpener.cachedURIs: keyed by the URI text exactly as given (after
+   `uri += '?' + urlencode(args)` for keyword arguments, which the harness
+   applies); a connection is stored only when the open did not raise.  The
+   cached connection is represented by its filename. *)
+Fixpoint cache_lookup (uri : str) (cache : list (str * str)) : option str :=
+  match cache with
+  | [] => None
+  | (k, v) :: r => if str_eqb k uri then Some v else cache_lookup uri r
+  end.
+(* the filename (or exception) of every connectionForURI call of a sequence *)
+Fixpoint open_seq (nt : bool) (cache : list (str * str)) (uris : list str) : list (ures str) :=
+  match uris with
+  | [] => []
+  | u :: r =>
+      match cache_lookup u cache with
+      | Some fn => ROk fn :: open_seq nt cache r
+      | None =>
+          match open_uri nt u with
+          | ROk fn => ROk fn :: open_seq nt ((u, fn) :: cache) r
+          | x => x :: open_seq nt cache r
+          end
+      end
+  end.
+
 (* ------------------------------------------------------------------ closed forms of the builders *)
 Definition strip1 (db : str) : str :=
   match db with
